@@ -7,7 +7,7 @@ def run(tier, seed):
     run = Run("C15", tier, seed)
     build_harness()
     th = tier == "thorough"
-    recs, matrix = sweep(run, "C15", seed, 3, 1500 if th else 150, 7 if th else 6)
+    recs, matrix = sweep(run, "C15", seed, 3, 1500 if th else 300, 7 if th else 6)
     run.extra["applicability_matrix"] = matrix
     mid = recs[len(recs) // 2]
     run.sample({k: mid[k] for k in list(mid)[:9]})
